@@ -7,6 +7,9 @@
 //! Oracles: conservation total = sum(cnt_i) and a = b at quiescent points, monotone bracket checks online,
 //! torn = 0, cycles_while_paused = 0 (decided with an in-order command sentinel), stop => join returns,
 //! state Stopped, one retain store call holding the final count; a faulting resource leaves the others cycling.
+//! A quarter of the trials run the same scripts on resources that share nothing (ResourceRunner::spawn, the loop
+//! a single-resource runtime uses): there the pause / resume / stop / fault oracles apply and cycles are counted by
+//! an I/O driver.
 
 use crate::ctx::{catch, panic_sig, Shard};
 use crate::rng::Rng;
@@ -46,6 +49,9 @@ pub enum Op {
 pub struct Trial {
     pub res: Vec<ResCfg>,
     pub ops: Vec<Op>,
+    /// true: every resource runs on its own through ResourceRunner::spawn (the loop without shared globals, the one a
+    /// single-resource runtime uses); cycles are counted by an I/O driver the runtime calls once per completed cycle
+    pub solo: bool,
 }
 
 fn source(i: usize, n: usize, cfg: &ResCfg) -> String {
@@ -154,7 +160,26 @@ fn gen_trial(r: &mut Rng) -> Trial {
             }
         });
     }
-    Trial { res, ops }
+    Trial { res, ops, solo: r.chance(1, 4) }
+}
+
+/// Where the monitor reads "cycles completed by resource i" from: the product's shared store, or (solo resources) the
+/// number of write_outputs calls an I/O driver received - one per completed cycle, none for a faulted cycle.
+#[derive(Clone)]
+pub enum Counts {
+    Shared(SharedGlobals),
+    Solo(Vec<Arc<AtomicU64>>),
+}
+
+struct CycleCounter(Arc<AtomicU64>);
+impl trust_runtime::io::IoDriver for CycleCounter {
+    fn read_inputs(&mut self, _inputs: &mut [u8]) -> Result<(), RuntimeError> {
+        Ok(())
+    }
+    fn write_outputs(&mut self, _outputs: &[u8]) -> Result<(), RuntimeError> {
+        self.0.fetch_add(1, Ordering::SeqCst);
+        Ok(())
+    }
 }
 
 struct Live {
@@ -215,16 +240,22 @@ fn sentinel(l: &Live) -> Result<bool, Viol> {
     }
 }
 
-fn cnt(shared: &SharedGlobals, i: usize) -> i64 {
-    as_i64(shared.get(&format!("cnt_{i}"))).unwrap_or(-1)
+fn cnt(counts: &Counts, i: usize) -> i64 {
+    match counts {
+        Counts::Shared(shared) => as_i64(shared.get(&format!("cnt_{i}"))).unwrap_or(-1),
+        Counts::Solo(c) => c[i].load(Ordering::SeqCst) as i64,
+    }
 }
 
-fn quiescent_check(shared: &SharedGlobals, n: usize, what: &str) -> Result<(), Viol> {
+fn quiescent_check(counts: &Counts, n: usize, what: &str) -> Result<(), Viol> {
+    let Counts::Shared(shared) = counts else {
+        return Ok(()); // solo resources share nothing
+    };
     let total = as_i64(shared.get("total")).unwrap_or(-1);
     let a = as_i64(shared.get("a")).unwrap_or(-1);
     let b = as_i64(shared.get("b")).unwrap_or(-1);
     let torn = as_i64(shared.get("torn")).unwrap_or(-1);
-    let cs: Vec<i64> = (0..n).map(|i| cnt(shared, i)).collect();
+    let cs: Vec<i64> = (0..n).map(|i| cnt(counts, i)).collect();
     let sum: i64 = cs.iter().sum();
     if total != sum {
         return Err(("shared|lost-update".into(), format!("{what}: shared total = {total} but the resources counted {cs:?} (sum {sum}) cycles")));
@@ -250,7 +281,7 @@ fn join_with_timeout(mut h: ResourceHandle<ManualClock>) -> Result<(ResourceHand
     }
 }
 
-fn do_stop(l: &mut Live, i: usize, via_control: bool, nudge: bool, shared: &SharedGlobals, obs: &mut Obs) -> Result<(), Viol> {
+fn do_stop(l: &mut Live, i: usize, via_control: bool, nudge: bool, shared: &Counts, obs: &mut Obs) -> Result<(), Viol> {
     if l.stopped {
         return Ok(());
     }
@@ -311,7 +342,7 @@ fn do_stop(l: &mut Live, i: usize, via_control: bool, nudge: bool, shared: &Shar
     Ok(())
 }
 
-fn do_pause(l: &mut Live, i: usize, shared: &SharedGlobals, obs: &mut Obs) -> Result<(), Viol> {
+fn do_pause(l: &mut Live, i: usize, shared: &Counts, obs: &mut Obs) -> Result<(), Viol> {
     if l.stopped {
         return Ok(());
     }
@@ -332,7 +363,7 @@ fn do_pause(l: &mut Live, i: usize, shared: &SharedGlobals, obs: &mut Obs) -> Re
     Ok(())
 }
 
-fn check_still_paused(l: &Live, i: usize, shared: &SharedGlobals, obs: &mut Obs) -> Result<(), Viol> {
+fn check_still_paused(l: &Live, i: usize, shared: &Counts, obs: &mut Obs) -> Result<(), Viol> {
     if let Some(c1) = l.paused_at {
         let c2 = cnt(shared, i);
         if c2 != c1 {
@@ -343,7 +374,7 @@ fn check_still_paused(l: &Live, i: usize, shared: &SharedGlobals, obs: &mut Obs)
     Ok(())
 }
 
-fn do_resume(l: &mut Live, i: usize, shared: &SharedGlobals, obs: &mut Obs, await_progress: bool) -> Result<(), Viol> {
+fn do_resume(l: &mut Live, i: usize, shared: &Counts, obs: &mut Obs, await_progress: bool) -> Result<(), Viol> {
     if l.stopped {
         return Ok(());
     }
@@ -399,18 +430,23 @@ pub fn run_trial(t: &Trial, seed: u64) -> Result<Obs, Viol> {
         let rt = TestHarness::from_source(&source(i, n, cfg)).map_err(|e| ("harness|program-rejected".to_string(), e.to_string()))?.into_runtime();
         runtimes.push(rt);
     }
-    let shared = SharedGlobals::from_runtime(names, &runtimes[0]).map_err(|e| ("harness|shared".to_string(), e.to_string()))?;
+    let store = SharedGlobals::from_runtime(names, &runtimes[0]).map_err(|e| ("harness|shared".to_string(), e.to_string()))?;
+    let solo_counters: Vec<Arc<AtomicU64>> = (0..n).map(|_| Arc::new(AtomicU64::new(0))).collect();
+    let shared = if t.solo { Counts::Solo(solo_counters.clone()) } else { Counts::Shared(store.clone()) };
     let mut live: Vec<Live> = Vec::new();
     for (i, (mut rt, cfg)) in runtimes.into_iter().zip(t.res.iter()).enumerate() {
         let saved = Arc::new(Mutex::new(Vec::new()));
         rt.set_retain_store(Some(Box::new(CountingStore { saved: saved.clone() })), None);
+        if t.solo {
+            rt.add_io_driver("cycle-counter", Box::new(CycleCounter(solo_counters[i].clone())));
+        }
         let clock = if cfg.own_clock { ManualClock::new() } else { common_clock.clone() };
         let mut runner = ResourceRunner::new(rt, clock.clone(), Duration::from_millis(cfg.interval_ms));
         let gate = if cfg.gated { Some(Arc::new(StartGate::new())) } else { None };
         if let Some(g) = &gate {
             runner = runner.with_start_gate(g.clone());
         }
-        let handle = runner.spawn_with_shared(format!("res-{i}"), shared.clone()).map_err(|e| ("harness|spawn".to_string(), e.to_string()))?;
+        let handle = if t.solo { runner.spawn(format!("res-{i}")) } else { runner.spawn_with_shared(format!("res-{i}"), store.clone()) }.map_err(|e| ("harness|spawn".to_string(), e.to_string()))?;
         let control = handle.control();
         live.push(Live { cfg: cfg.clone(), handle: Some(handle), control, clock, gate, gate_open: false, stopped: false, saved, paused_at: None, ever_started: !cfg.gated });
     }
@@ -421,17 +457,28 @@ pub fn run_trial(t: &Trial, seed: u64) -> Result<Obs, Viol> {
     let witnessed = Arc::new(AtomicU64::new(0));
     let obs_viol: Arc<Mutex<Option<Viol>>> = Arc::new(Mutex::new(None));
     let observer = {
-        let (shared, stop_obs, brackets, witnessed, obs_viol) = (shared.clone(), stop_obs.clone(), brackets.clone(), witnessed.clone(), obs_viol.clone());
+        let (counts, shared, stop_obs, brackets, witnessed, obs_viol) = (shared.clone(), store.clone(), stop_obs.clone(), brackets.clone(), witnessed.clone(), obs_viol.clone());
+        let solo = t.solo;
         std::thread::spawn(move || {
             let mut last: Vec<i64> = vec![0; n];
             let mut last_total = 0i64;
             while !stop_obs.load(Ordering::SeqCst) {
-                let before: Vec<i64> = (0..n).map(|i| cnt(&shared, i)).collect();
+                if solo {
+                    // nothing is shared: only count how often two resources were seen advancing in one interval
+                    let after: Vec<i64> = (0..n).map(|i| cnt(&counts, i)).collect();
+                    if after.iter().zip(last.iter()).filter(|(x, y)| x > y).count() >= 2 {
+                        witnessed.fetch_add(1, Ordering::Relaxed);
+                    }
+                    last = after;
+                    std::thread::sleep(StdDuration::from_micros(50));
+                    continue;
+                }
+                let before: Vec<i64> = (0..n).map(|i| cnt(&counts, i)).collect();
                 let a1 = as_i64(shared.get("a")).unwrap_or(0);
                 let total = as_i64(shared.get("total")).unwrap_or(0);
                 let b = as_i64(shared.get("b")).unwrap_or(0);
                 let a2 = as_i64(shared.get("a")).unwrap_or(0);
-                let after: Vec<i64> = (0..n).map(|i| cnt(&shared, i)).collect();
+                let after: Vec<i64> = (0..n).map(|i| cnt(&counts, i)).collect();
                 let (sb, sa): (i64, i64) = (before.iter().sum(), after.iter().sum());
                 let mut v = None;
                 if total < sb || total > sa {
@@ -615,12 +662,13 @@ pub fn run_trial(t: &Trial, seed: u64) -> Result<Obs, Viol> {
     }
     obs.bracket_checks = brackets.load(Ordering::Relaxed);
     obs.concurrency_witnessed = witnessed.load(Ordering::Relaxed);
-    obs.cycles_total = as_i64(shared.get("total")).unwrap_or(0).max(0) as u64;
+    obs.cycles_total = (0..n).map(|i| cnt(&shared, i).max(0) as u64).sum();
     Ok(obs)
 }
 
 fn trial_json(t: &Trial) -> J {
     json!({
+        "solo": t.solo,
         "res": t.res.iter().map(|c| json!({"interval_ms": c.interval_ms, "own_clock": c.own_clock, "gated": c.gated, "fault_at": c.fault_at, "spin": c.spin})).collect::<Vec<_>>(),
         "ops": t.ops.iter().map(|o| match o {
             Op::Advance(j, ms) => json!(["advance", j, ms]),
@@ -655,7 +703,7 @@ fn parse_trial(v: &J) -> Trial {
                 .collect()
         })
         .unwrap_or_default();
-    Trial { res, ops }
+    Trial { res, ops, solo: v["solo"].as_bool().unwrap_or(false) }
 }
 
 fn one(sh: &mut Shard, t: &Trial, seed: u64) -> bool {
@@ -688,7 +736,13 @@ fn one(sh: &mut Shard, t: &Trial, seed: u64) -> bool {
             sh.count("samples_with_two_resources_advancing", o.concurrency_witnessed);
             sh.count("faults_isolated", o.faults_isolated);
             sh.count(&format!("trials_with_{}_resources", t.res.len()), 1);
-            if o.concurrency_witnessed > 0 && o.stops_verified > 0 {
+            if t.solo {
+                sh.count("solo_trials", 1);
+                sh.count("solo_stops_verified", o.stops_verified);
+                sh.count("solo_pause_episodes_verified_cycle_free", o.pauses_verified);
+                sh.count("solo_resumes_followed_by_a_cycle", o.resumes_verified);
+            }
+            if (o.concurrency_witnessed > 0 || t.solo) && o.stops_verified > 0 {
                 sh.nontrivial(&(trial_json(t).to_string(), o.outcome));
             }
             if sh.want_sample() && t.ops.len() < 15 {
